@@ -229,7 +229,10 @@ def run(tier):
                     u = [c for c in corpus.rand_input(rng, 12) if c and not (0x0500 <= c < 0x0600)]
                 else:
                     u = G.rand_text_rules(rng, base_t, 10) if rng.random() < 0.5 else G.rand_text(rng, base_t, 10, undefined=0)
-                s.mprobes.append(fwd(s.base, [c for c in u if c] or [0x61]))
+                # (an empty draw falls back to a character of the BASE: the rendering of an undefined character goes
+                # through fallback cells that a fresh definition may legitimately give an attribute — thorough seed 2)
+                u = [c for c in u if c] or ([0x20] if s.kind == "shipped" else (base_t.chars()[:1] or [0x20]))
+                s.mprobes.append(fwd(s.base, u))
             for _ in range(4 if s.kind != "shipped" else 0):     # (a shipped table's cells are not known to the generator)
                 cells = G.rand_cells(rng, base_t, 8, undefined=0)
                 s.mprobes.append(bwd(s.base, [c for c in cells if c != 0x8000] or [0x8001]))
